@@ -37,7 +37,13 @@ def run(tier, opts):
     for b in builds:
         binp = vf.build(b)
         outp = os.path.join(tmp, f"mal-{b}.ndjson")
-        vf.vh(binp, ["malformed", "c18", outp, 6 if quick else 40, "yes", "0" if quick else "1"], timeout=6 * 3600)
+        r = vf.vh(binp, ["malformed", "c18", outp, 6 if quick else 40, "yes", "0" if quick else "1"], timeout=6 * 3600, check=False)
+        if r.returncode != 0:
+            # the process died (abort on allocation failure, stack overflow, double panic ...): that is a crash of the verifier
+            if r.returncode < 0 or "memory allocation" in r.stderr or "overflowed its stack" in r.stderr or "panic in a function that cannot unwind" in r.stderr:
+                ck.violation("abort:" + r.stderr.strip().splitlines()[-1][:60] if r.stderr.strip() else "abort", f"[{b}] the verifier aborted the process while running malformed recipes: {r.stderr.strip()[-300:]}", {"stderr": r.stderr[-4000:], "returncode": r.returncode})
+                continue
+            raise vf.ToolError(f"harness failed ({r.returncode}): {r.stderr[-2000:]}")
         recs = vf.read_ndjson(outp)
         summ = [r for r in recs if r.get("summary")][0]
         for r in recs:
